@@ -486,6 +486,33 @@ func c11Enumerate(full bool, visit func(idx int64, cs c11Case, run func() string
 	if !emit("empty", [][]c11Part{{}}) {
 		return
 	}
+	// 2b. several responses in one message, some with link metadata and some without (either wire order)
+	{
+		cids := c11Cids()
+		mdA := []gsmsg.GraphSyncLinkMetadatum{{Link: cids[2], Action: graphsync.LinkActionPresent}, {Link: cids[0], Action: graphsync.LinkActionMissing}}
+		mdB := []gsmsg.GraphSyncLinkMetadatum{{Link: cids[6], Action: graphsync.LinkActionDuplicateNotSent}}
+		mk := func(name string, idb byte, st graphsync.ResponseStatusCode, md []gsmsg.GraphSyncLinkMetadatum, exts ...graphsync.ExtensionData) c11Part {
+			r := gsmsg.NewResponse(harness.MkID(idb), st, md, exts...)
+			return c11Part{Name: fmt.Sprintf("rsp id=%d st=%d %s", idb, st, name), Rsp: &r}
+		}
+		ext := graphsync.ExtensionData{Name: "y/only", Data: basicnode.NewString("s")}
+		for _, st := range c11Statuses {
+			for _, ids := range [][3]byte{{1, 2, 3}, {3, 2, 1}, {2, 1, 3}, {2, 3, 1}} {
+				for _, withExt := range []bool{false, true} {
+					var ex []graphsync.ExtensionData
+					if withExt {
+						ex = append(ex, ext)
+					}
+					a := mk("md=2", ids[0], graphsync.PartialResponse, mdA)
+					b := mk("md=none", ids[1], st, nil, ex...)
+					d := mk("md=1", ids[2], graphsync.PartialResponse, mdB)
+					if !emit("responses-mixed-metadata", [][]c11Part{{a, b}}) || !emit("responses-mixed-metadata", [][]c11Part{{a, b, d}}) || !emit("responses-mixed-metadata", [][]c11Part{{b, a}, {a, b}}) {
+						return
+					}
+				}
+			}
+		}
+	}
 	// 3. combinations of 0..2 of each kind from reduced pools
 	pick := func(pool []c11Part, n int) []c11Part {
 		var o []c11Part
